@@ -7,6 +7,7 @@ open SamVerif.Heap Driver
 structure St where
   heap : Heap := init
   handles : List (String × Handle) := []
+  counter : Option Nat := none
 
 def showHandle : Handle → String
   | .inl s => "i:" ++ hexOfBytes s
@@ -34,14 +35,25 @@ def step (st : St) (line : String) : St × String :=
   | ["reset"] => ({}, "ok")
   | ["as", v, s] =>
     let (h, p) := allocString st.heap (bytesOfHex s)
-    ({ heap := h, handles := bind st v p }, showHandle p)
+    ({ st with heap := h, handles := bind st v p }, showHandle p)
   | ["st", v, s] =>
     let (h, p) := allocStatic st.heap (bytesOfHex s)
-    ({ heap := h, handles := bind st v p }, showHandle p)
+    ({ st with heap := h, handles := bind st v p }, showHandle p)
   | ["at", v] =>
     let name := ("_t" ++ toString st.heap.slots.length).toUTF8.toList
     let (h, p) := allocTemp st.heap name
-    ({ heap := h, handles := bind st v p }, showHandle p)
+    ({ st with heap := h, handles := bind st v p }, showHandle p)
+  | ["tc"] => ({ st with counter := some st.heap.slots.length }, "ok")
+  | ["tca", v] =>
+    match st.counter with
+    | some c =>
+      let p := Handle.inl ("_t" ++ toString c).toUTF8.toList
+      ({ st with counter := some (c + 1), handles := bind st v p }, showHandle p)
+    | none => (st, "skip")
+  | ["tcs"] =>
+    match st.counter with
+    | some c => ({ st with heap := syncTempCounter st.heap c, counter := none }, "ok")
+    | none => (st, "skip")
   | "am" :: hs =>
     let ps := hs.map (getH st)
     if ps.all Option.isSome then
